@@ -235,6 +235,17 @@ fn start_watchdog(limit: Duration) {
             std::process::exit(3);
          }
          if since.elapsed() > limit {
+            let cur = CURRENT.lock().map(|c| c.clone()).unwrap_or(None);
+            let j = serde_json::json!({
+               "no_progress_s": since.elapsed().as_secs(),
+               "bases": cur.as_ref().map(|c| c.0.clone()),
+               "input": cur.as_ref().map(|c| c.1.clone()),
+               "ops": cur.as_ref().and_then(|c| c.2.clone()),
+            });
+            if let Some(out) = OUT_PATH.lock().unwrap().clone() {
+               std::fs::write(format!("{out}.runaway.json"), serde_json::to_string_pretty(&j).unwrap()).ok();
+            }
+            eprintln!("WATCHDOG: current case: {:?}", cur.as_ref().map(|c| c.0.clone()));
             eprintln!("WATCHDOG: no progress for {:?}: possible runaway case (inconclusive)", limit);
             println!("INCONCLUSIVE watchdog");
             std::process::exit(2);
